@@ -93,6 +93,13 @@ impl GenericTokenBucket {
     }
 }
 
+#[cfg(feature = "verif")]
+impl GenericTokenBucket {
+    pub const fn verif_params() -> (u32, u32) {
+        (Self::MAX_TOKENS, Self::TOKENS_PER_SECOND)
+    }
+}
+
 impl Default for GenericTokenBucket {
     fn default() -> Self {
         Self::new()
